@@ -45,7 +45,13 @@ CONSTANTS MaxFields,     \* fields per generated top-level shape
                          \* FALSE (as the code is): as plain varints of the Go type
           Emit
 
-ScalarKinds == {"bool","int","i32","i64","s32","s64","uint","u32","u64","x32","x64","flt","dbl","str","byt","arr","arr7","arr15","arr16"}
+ScalarKinds == {"bool","int","i32","i64","s32","s64","uint","u32","u64","x32","x64","flt","dbl","str","byt","arr","arr7","arr15","arr16",
+                "rawm","pmsg","cmsg"}
+\* types with user-supplied marshalling methods: proto.RawMessage ("rawm"), a struct implementing proto.Message ("pmsg"),
+\* a struct implementing the gogo-style custom interface ("cmsg").  On the wire they are length-delimited blobs; the
+\* struct-typed ones have no empty value and are always written.
+BlobKinds   == {"rawm","pmsg","cmsg"}
+AlwaysKinds == {"pmsg","cmsg"}
 ArrKinds    == {"arr","arr7","arr15","arr16"}     \* byte arrays of 4, 7, 15 and 16 bytes (zero test runs word-wise)
 MsgKinds    == {"m1","m2","m3","m4"}
 Kinds       == ScalarKinds \cup MsgKinds
@@ -55,7 +61,7 @@ Cards       == {"one","ptr","rep","map"}
 \* wire type of a kind: 0 varint, 1 fixed64, 2 length-delimited, 5 fixed32
 WT(k) == CASE k \in {"x64","dbl"} -> 1
            [] k \in {"x32","flt"} -> 5
-           [] k \in {"str","byt"} \cup ArrKinds \cup MsgKinds -> 2
+           [] k \in {"str","byt"} \cup ArrKinds \cup MsgKinds \cup BlobKinds -> 2
            [] OTHER -> 0
 
 F(k, c, n, mk) == [k |-> k, c |-> c, n |-> n, mk |-> mk]
@@ -120,7 +126,7 @@ WireField(f, n, val) ==
   CASE f.c = "one" ->
          IF f.k \in MsgKinds
          THEN LET sub == WireMsg(SubShape(f.k), val) IN IF sub = <<>> THEN <<>> ELSE <<R(n, 2, f.k, 0, sub)>>
-         ELSE IF val.v = 0 THEN <<>> ELSE <<R(n, WT(f.k), f.k, val.v, <<>>)>>
+         ELSE IF val.v = 0 /\ f.k \notin AlwaysKinds THEN <<>> ELSE <<R(n, WT(f.k), f.k, val.v, <<>>)>>
     [] f.c = "ptr" ->
          IF val.t = "nil" THEN <<>> ELSE <<WireElem(f.k, n, val.xs[1])>>
     [] f.c = "rep" ->
@@ -153,7 +159,7 @@ ImplField(f, n, val, wz) ==
   CASE f.c = "one" ->
          IF f.k \in MsgKinds
          THEN LET sub == ImplMsg(SubShape(f.k), val, wz) IN IF sub = <<>> THEN <<>> ELSE <<R(n, 2, f.k, 0, sub)>>
-         ELSE IF val.v = 0 /\ ~wz THEN <<>> ELSE <<R(n, WT(f.k), f.k, val.v, <<>>)>>
+         ELSE IF val.v = 0 /\ ~wz /\ f.k \notin AlwaysKinds THEN <<>> ELSE <<R(n, WT(f.k), f.k, val.v, <<>>)>>
     [] f.c = "ptr" ->
          IF val.t = "nil" THEN <<>> ELSE ImplElem(f.k, n, val.xs[1], FixPresence)
     [] f.c = "rep" ->
@@ -246,7 +252,7 @@ FieldChoices ==
 \* zigzag / fixed kinds only where a struct tag can request them
 TaggedKinds == {"s32","s64","x32","x64"}
 Supported(f) ==
-  /\ (f.c = "ptr" => f.k \notin {"byt"} \cup ArrKinds)
+  /\ (f.c = "ptr" => f.k \notin {"byt","rawm"} \cup ArrKinds)
   /\ (f.k \in TaggedKinds => f.n # 0 /\ f.c \in {"one","ptr","rep"})
   /\ (f.c = "rep" /\ f.k \in TaggedKinds => RepTagged)
 
